@@ -5,7 +5,7 @@
    tmpl_window, tmpl_wsymm (the two code templates). *)
 From Coq Require Import List Bool ZArith Reals String.
 From Coq Require Floats.PrimFloat.   (* not imported: Print Assumptions then shows the primitives with their full names *)
-From AL Require Import C14.Model C14.Gen_Windows C14.Spec C14.Proofs_Gen C14.Proofs_R C14.Proofs_Cola C14.Proofs_Ex.
+From AL Require Import C14.Model C14.Gen_Windows C14.Spec C14.Proofs_Gen C14.Proofs_R C14.Proofs_Cola C14.Proofs_ColaGen C14.Proofs_Ex.
 Import ListNotations.
 
 (* ================= 1. periodic = prefix of symmetric, EXACTLY (any evaluator, so also in binary64) ========= *)
@@ -154,6 +154,16 @@ Theorem C14_cola_quarter : forall h a,
   cola (winR tmpl_window f_blackman (Z.of_nat (4 * h)) a) h 4 (2 * (1 - a)).
 Proof. exact cola_quarter. Qed.
 Print Assumptions C14_cola_quarter.
+
+(* beyond the property text: ANY number m of overlapping copies (hop = size/m), every size m*h:
+   hann m/2 and hamming 0.54 m for m >= 2, blackman m(1-alpha)/2 for m >= 3, every alpha
+   (finite trigonometric sums: sum_{k<m} cos(t + 2 pi k/m) = 0) *)
+Theorem C14_cola_any : forall h m a,
+  ((2 <= m)%nat -> cola (winR tmpl_window f_hann (Z.of_nat (m * h)) a) h m (INR m / 2)) /\
+  ((2 <= m)%nat -> cola (winR tmpl_window f_hamming (Z.of_nat (m * h)) a) h m (INR m * (54 / 100))) /\
+  ((3 <= m)%nat -> cola (winR tmpl_window f_blackman (Z.of_nat (m * h)) a) h m (INR m * ((1 - a) / 2))).
+Proof. exact cola_any. Qed.
+Print Assumptions C14_cola_any.
 
 (* ================= non-vacuity / concrete instances ================= *)
 Close Scope R_scope.
